@@ -399,10 +399,15 @@ func (v *FHIRPathVisitor) VisitTimeLiteral(ctx *grammar.TimeLiteralContext) inte
 // VisitQuantityLiteral returns a QuantityLiteralExpression, returning an error if there
 // is an error during creation of the Quantity type.
 func (v *FHIRPathVisitor) VisitQuantityLiteral(ctx *grammar.QuantityLiteralContext) interface{} {
-	// remove string quotes from unit
+	// a quoted unit is a string literal: remove its quotes and decode its escapes
 	unit := ctx.Quantity().Unit().GetText()
-	unit = strings.TrimPrefix(unit, "'")
-	unit = strings.TrimSuffix(unit, "'")
+	if strings.HasPrefix(unit, "'") {
+		parsed, err := system.ParseString(unit)
+		if err != nil {
+			return &VisitResult{nil, err}
+		}
+		unit = string(parsed)
+	}
 
 	quantity, err := system.ParseQuantity(ctx.Quantity().NUMBER().GetText(), unit)
 	if err != nil {
